@@ -31,6 +31,7 @@ func init() {
 			"and isJustifiedPrePrepare returns false whenever msg.Value() is the zero value; " +
 			"(V3) classify returns UponQuorumCommits only where len(list) >= Quorum() holds for the returned list = filterMsgs(flatten(buffer), COMMIT, msg.Round(), msg.Value()), " +
 			"returns UponJustifiedDecided only for a DECIDED message with its own justification, for a DECIDED message isJustified returns exactly the verdict of isJustifiedDecided (which accepts only behind a quorum of COMMITs of the message's justification, round and value), " +
+			"the filter function, walked in the activation of each of those two commit-quorum calls under 'the element's Type()/Round()/Value() differs from the criterion this caller passes', cannot reach an instruction that adds the element to its result (a criterion is applied for every value the caller can pass, the zero value included), " +
 			"and Run calls Decide only for those two rules with (msg.Value(), msg.Round(), classify's justification); " +
 			"(V4) the Decide callback of core/consensus/qbft hands subscribers UnmarshalNew of qcommit[i].Values()[valueHash] (checked lookup by the decided hash; Values() is the recomputed-hash map, C05-A3); " +
 			"(V5) the only other PRE-PREPARE value is pv of getSingleJustifiedPrPv(justification), unreachable when its ok result is false, inside the UponQuorumRoundChanges branch, with classify handing over the checked result of getJustifiedQrc. " +
@@ -44,7 +45,7 @@ func init() {
 func c03(c *rt.Ctx) {
 	c.Rule("V1", 4, func() { c03V1(c) })
 	c.Rule("V2", 2, func() { c03V2(c) })
-	c.Rule("V3", 14, func() { c03V3(c) })
+	c.Rule("V3", 20, func() { c03V3(c) })
 	c.Rule("V4", 4, func() { c03V4(c) })
 	c.Rule("V5", 7, func() { c03V5(c) })
 }
@@ -1441,6 +1442,17 @@ var c03Mutants = []Mutant{
 		Old: "\t\t\tvalue, err := anyValue.UnmarshalNew()\n\t\t\tif err != nil {", New: "\t\t\tvalue, err := anyValue.UnmarshalNew()\n\t\t\tif err != nil && round > 1 {"},
 	{ID: "C03-V5-pv-when-pr-positive", File: c03F, Expect: "V5|ok edge",
 		Old: "if ok && compareFailureRound != pr {", New: "if compareFailureRound != pr && (ok || pr > 0) {"},
+	// round 4: the filter function itself applies the criteria the commit quorum is filtered with (c03n4_filter.go)
+	{ID: "C03-V3-filter-zero-value-means-unset", File: c03F, Expect: "V3|messages of the given value",
+		Old: "\t\tif value != nil && msg.Value() != *value {", New: "\t\tif value != nil && !isZeroVal(*value) && msg.Value() != *value {"},
+	{ID: "C03-V3-filter-value-check-deleted", File: c03F, Expect: "V3|messages of the given value",
+		Old: "\t\tif value != nil && msg.Value() != *value {\n\t\t\tcontinue\n\t\t}\n\n", New: ""},
+	{ID: "C03-V3-filter-value-only-when-prepared-given", File: c03F, Expect: "V3|messages of the given value",
+		Old: "\t\tif value != nil && msg.Value() != *value {", New: "\t\tif value != nil && pv != nil && msg.Value() != *value {"},
+	{ID: "C03-V3-filter-round-only-late-rounds", File: c03F, Expect: "V3|messages of the given round",
+		Old: "\t\tif round != msg.Round() {", New: "\t\tif round != msg.Round() && round > 1 {"},
+	{ID: "C03-V3-filter-prepares-pass-type-check", File: c03F, Expect: "V3|messages of the given type",
+		Old: "\t\tif typ != msg.Type() {", New: "\t\tif typ != msg.Type() && msg.Type() != MsgPrepare {"},
 	{ID: "C03-V5-reproposal-on-unjust-qrc", File: c03F, Expect: "V5|only upon",
 		Old:  "\t\t\tcase UponQuorumRoundChanges: // Algorithm 3:11",
 		New:  "\t\t\tcase UponQuorumRoundChanges, UponUnjustQuorumRoundChanges: // Algorithm 3:11",
